@@ -29,8 +29,29 @@ import (
 var b64 = []uint64{0, 1, 127, 128, 255, 256, 16383, 16384, 1<<32 - 1, 1 << 32, 1<<63 - 1, 1 << 63, math.MaxUint64}
 var b32 = []uint32{0, 1, 127, 128, 255, 256, 16383, 16384, 65535, 65536, 1<<31 - 1, 1 << 31, math.MaxUint32}
 
+// gVarBound draws a value at a uvarint width boundary: 2^(7k)-1, 2^(7k), 2^(7k)+1 for k = 1..9
+// (bit lengths 7k and 7k+1: where a varint grows by one byte), or inside such a band.
+func gVarBound(r *hlib.Rand) uint64 {
+	k := uint(1 + r.Intn(9))
+	base := uint64(1) << (7 * k)
+	switch r.Intn(5) {
+	case 0:
+		return base - 1
+	case 1:
+		return base
+	case 2:
+		return base + 1
+	case 3: // bit length exactly 7k: [2^(7k-1), 2^(7k))
+		return base/2 + r.U64()%(base/2)
+	default:
+		return base/2 - 1
+	}
+}
+
 func g64(r *hlib.Rand) uint64 {
 	switch x := r.Intn(100); {
+	case x < 20:
+		return gVarBound(r)
 	case x < 62:
 		return hlib.Pick(r, b64)
 	case x < 85:
@@ -905,8 +926,20 @@ func genKeyOp(r *hlib.Rand) string {
 
 func genVsVp(r *hlib.Rand) string {
 	switch x := r.Intn(100); {
-	case x < 30:
+	case x < 15:
 		return fmt.Sprintf("vs.rt %d %d %s", g8(r), g64(r), hexs(gBytes(r)))
+	case x < 32:
+		e := g64(r)
+		if r.Chance(60) {
+			e = gVarBound(r)
+		}
+		return fmt.Sprintf("vs.size %d %d %s", g8(r), e, hexs(gBytes(r)))
+	case x < 40:
+		e := g64(r)
+		if r.Chance(60) {
+			e = gVarBound(r)
+		}
+		return fmt.Sprintf("ent.size %s %d %d", hexs(gBytes(r)), g8(r), e)
 	case x < 62:
 		segs := []seg{sR(g8(r)), sU(g64(r)), sR(gShort(r)...)}
 		return "vs.dec " + hexs(mutate(r, segs, idFin, false))
